@@ -1,0 +1,31 @@
+//go:build verif
+
+package interceptor
+
+import (
+	"go.temporal.io/api/enums/v1"
+	"go.temporal.io/server/common/log"
+)
+
+// Verification hooks (build tag "verif" only): read access to the tables that drive the reflective
+// translation, and direct entry points to the visitors. Nothing here changes behaviour.
+
+func VerifNamespaceFieldNames() map[string]bool       { return namespaceFieldNames }
+func VerifDataBlobFieldNames() map[string]bool        { return dataBlobFieldNames }
+func VerifSearchAttributeFieldNames() map[string]bool { return searchAttributeFieldNames }
+func VerifSkippableHistoryEvents() map[enums.EventType]struct{} {
+	return namespaceTranslationSkippableHistoryEvents
+}
+
+// VerifVisitNamespace runs visitNamespace with a plain mapping (exact-match) matcher.
+func VerifVisitNamespace(obj any, mapping map[string]string) (bool, error) {
+	return visitNamespace(log.NewNoopLogger(), obj, createStringMatcher(mapping))
+}
+
+// VerifVisitSearchAttributes runs visitSearchAttributes with a plain mapping matcher.
+func VerifVisitSearchAttributes(obj any, mapping map[string]string) (bool, error) {
+	return visitSearchAttributes(log.NewNoopLogger(), obj, createStringMatcher(mapping))
+}
+
+// VerifIsSkippable exposes isSkippableForNamespaceTranslation.
+func VerifIsSkippable(obj any) bool { return isSkippableForNamespaceTranslation(obj) }
